@@ -367,6 +367,10 @@ func grpcHistory(h *H, prop string, steps int, malformed bool) {
 				}
 				if g.intn(3) == 0 {
 					p.PositiveGlobalTrustId = "gp"
+				} else if g.intn(6) == 0 {
+					// the same vector named for both results (valid: it ends up with the discounted scores)
+					p.PositiveGlobalTrustId = p.GlobalTrustId
+					g.count("compute:positive-id-equals-global-id")
 				}
 				if g.intn(2) == 0 {
 					a := []float64{0.5, 0.2, 0.9, 1, 0}[g.intn(5)]
